@@ -254,3 +254,63 @@ func (i *instConvert_f64_promote_f32) Format(indent string, sb *strings.Builder)
 	sb.WriteString(indent)
 	sb.WriteString("f64.promote_f32")
 }
+
+/**************************************
+instConvert_i32_trunc_f32_u:
+**************************************/
+type instConvert_i32_trunc_f32_u struct {
+	anInstruction
+}
+
+func NewInstConvert_i32_trunc_f32_u() *instConvert_i32_trunc_f32_u {
+	return &instConvert_i32_trunc_f32_u{}
+}
+func (i *instConvert_i32_trunc_f32_u) Format(indent string, sb *strings.Builder) {
+	sb.WriteString(indent)
+	sb.WriteString("i32.trunc_f32_u")
+}
+
+/**************************************
+instConvert_i32_trunc_f64_u:
+**************************************/
+type instConvert_i32_trunc_f64_u struct {
+	anInstruction
+}
+
+func NewInstConvert_i32_trunc_f64_u() *instConvert_i32_trunc_f64_u {
+	return &instConvert_i32_trunc_f64_u{}
+}
+func (i *instConvert_i32_trunc_f64_u) Format(indent string, sb *strings.Builder) {
+	sb.WriteString(indent)
+	sb.WriteString("i32.trunc_f64_u")
+}
+
+/**************************************
+instConvert_i64_trunc_f32_u:
+**************************************/
+type instConvert_i64_trunc_f32_u struct {
+	anInstruction
+}
+
+func NewInstConvert_i64_trunc_f32_u() *instConvert_i64_trunc_f32_u {
+	return &instConvert_i64_trunc_f32_u{}
+}
+func (i *instConvert_i64_trunc_f32_u) Format(indent string, sb *strings.Builder) {
+	sb.WriteString(indent)
+	sb.WriteString("i64.trunc_f32_u")
+}
+
+/**************************************
+instConvert_i64_trunc_f64_u:
+**************************************/
+type instConvert_i64_trunc_f64_u struct {
+	anInstruction
+}
+
+func NewInstConvert_i64_trunc_f64_u() *instConvert_i64_trunc_f64_u {
+	return &instConvert_i64_trunc_f64_u{}
+}
+func (i *instConvert_i64_trunc_f64_u) Format(indent string, sb *strings.Builder) {
+	sb.WriteString(indent)
+	sb.WriteString("i64.trunc_f64_u")
+}
